@@ -20,7 +20,7 @@ ASSUMPTIONS = ["identical (location, message) warnings may be delivered once or 
 
 
 def plan(tier):
-    return {"budget_s": 60 if tier == "quick" else 500, "profiles": ["R"], "min_evaluations": 5000}
+    return {"budget_s": 60 if tier == "quick" else 500, "profiles": ["R"], "min_evaluations": 2000}
 
 
 def line_col_ok(text, line, col):
